@@ -1,5 +1,7 @@
 SPECIFICATION Spec
 CONSTANTS
+  NamesUsed = {"l2"}
+  InitAuto = TRUE
   TwoPaths = TRUE
   MaxLen = 5
 INVARIANTS
